@@ -419,6 +419,33 @@ def r1(ctx, prog, fit, jac):
             continue
         if isinstance(s, ast.Assign) and \
                 isinstance(s.targets[0], ast.Tuple) and \
+                isinstance(s.value, (ast.Call, ast.GeneratorExp,
+                                     ast.ListComp)):
+            # amp, xo, ... = tuple(pars[prefix + n].value for n in (...))
+            # written in place (or left there by the helper inliner)
+            rv = s.value
+            if isinstance(rv, ast.Call) and norm(rv.func) in (
+                    "tuple", "list") and len(rv.args) == 1:
+                rv = rv.args[0]
+            if isinstance(rv, (ast.GeneratorExp, ast.ListComp)) and \
+                    len(rv.generators) == 1 and \
+                    not rv.generators[0].ifs and \
+                    isinstance(rv.generators[0].iter, (ast.Tuple,
+                                                       ast.List)) and \
+                    isinstance(rv.elt, ast.Attribute) and \
+                    rv.elt.attr == "value" and \
+                    isinstance(rv.elt.value, ast.Subscript) and \
+                    norm(rv.generators[0].target) in names_in(
+                        rv.elt.value.slice):
+                sf = [e.value for e in rv.generators[0].iter.elts
+                      if isinstance(e, ast.Constant)]
+                if len(sf) == len(s.targets[0].elts) and \
+                        all(x_ in S for x_ in sf):
+                    for t_, x_ in zip(s.targets[0].elts, sf):
+                        tr.env[norm(t_)] = S[x_]
+                    continue
+        if isinstance(s, ast.Assign) and \
+                isinstance(s.targets[0], ast.Tuple) and \
                 isinstance(s.value, ast.Call) and \
                 prog.resolve_name(fit, norm(s.value.func)) in prog.functions:
             # amp, xo, ... = helper(pars, prefix) returning the .value's
